@@ -18,7 +18,7 @@ LEVEL_TEXT = ('in every crash state every payload still under files/ must still 
 LEVEL_NOTE = 'crash = process kill between two system calls; trusted: shim trace completeness for mutating calls'
 RULE = ('scenarios: entry kinds {file, deep dir, symlink->dir} x {1, 3 entries (+ a hand-written entry named n.trashinfo.bak for the purging commands)} x command {restore same volume, restore cross-volume, restore --overwrite onto an existing directory, empty, empty 0, empty -i (re-run with -i too), empty with two --trash-dir options, rm *} + two trashed links to one directory (+ restore --overwrite, multi-index '
         'restores in thorough); crash before each mutating syscall + after the last; non-trivial = crash state differs from initial state; distinct = (command, kind, count, operation at death)')
-CMDS = ['restore', 'restore-xvol', 'empty', 'empty0', 'rm-star', 'empty-i', 'restore-overwrite-dir', 'empty-2td', 'restore-td', 'rm-slash']
+CMDS = ['restore', 'restore-xvol', 'empty', 'empty0', 'rm-star', 'empty-i', 'restore-overwrite-dir', 'empty-2td', 'restore-td', 'rm-slash', 'restore-same-twice']
 T2 = '/home/u/T2'
 TD = scen.HOME_TRASH
 
@@ -33,6 +33,8 @@ def scenarios(tier):
         for n in (1, 3):
             for k in ('file', 'tree', 'ldir', 'ldang'):
                 if cmd == 'restore-overwrite-dir' and k != 'tree':
+                    continue
+                if cmd == 'restore-same-twice' and (k not in ('file', 'tree') or n != 1):
                     continue
                 out.append({'kind': k, 'n': n, 'cmd': cmd})
     for cmd in ('rm-star', 'empty', 'empty0'):
@@ -64,6 +66,13 @@ def setup(sb, s):
         r = sb.run(argv, cwd=B, env=env, now='2020-01-0%dT00:00:00' % (i + 1))
         if r.exit != 0:
             raise cell.HarnessError('HARNESS-SETUP put failed: %s' % r.err[-300:])
+    if s['cmd'] == 'restore-same-twice':
+        # a second version of e0 is created at the same place and trashed too: both are chosen in one answer (0-1)
+        with open(sb.root + B + '/e0', 'w') as f:
+            f.write('the second version of e0\n')
+        r = sb.run(['trash-put', 'e0'], cwd=B, env=env, now='2020-01-09T00:00:00')
+        if r.exit != 0:
+            raise cell.HarnessError('HARNESS-SETUP second put failed: %s' % r.err[-300:])
     if s['cmd'] == 'empty-2td':
         # a second trash directory, given with a second --trash-dir, holding one entry of each kind
         for nm, body in (('two', None), ('twodir', 'd')):
@@ -99,7 +108,7 @@ def command(s, ctx):
     c = s['cmd']
     env = dict(HOME='/home/u')
     if c.startswith('restore'):
-        reply = '0-%d' % (s['n'] - 1) if (c == 'restore-multi' and s['n'] > 1) else '0'
+        reply = '0-%d' % (s['n'] - 1) if (c == 'restore-multi' and s['n'] > 1) else ('0-1' if c == 'restore-same-twice' else '0')
         argv = ['trash-restore', '--sort', 'date'] + (['--overwrite'] if c in ('restore-overwrite', 'restore-overwrite-dir') else []) + \
             (['--trash-dir', '../home/u/.local/share/Trash'] if c == 'restore-td' else []) + ['/']          # (restore-td: the trash directory named explicitly, relative to /)
         return {'argv': argv, 'stdin': reply + '\n', 'cwd': '/', 'env': env}
@@ -132,7 +141,12 @@ def oracle(s, ctx, start, sb, r, at):
         for nm in p_b:
             if nm in p_a and (nm + '.trashinfo') in i_a and (nm + '.trashinfo') not in i_b:
                 problems.append('payload-stranded-without-info:%s (second trash dir)' % nm)
-    if s['cmd'].startswith('restore'):
+    if s['cmd'] == 'restore-same-twice':
+        for nm in ('e0', 'e0_1'):
+            in_trash = (nm + '.trashinfo') in infos and world.same_entry(start, TD + '/files/' + nm, snap, TD + '/files/' + nm)
+            if not (in_trash or world.same_entry(start, TD + '/files/' + nm, snap, B + '/e0')):
+                problems.append('restored-entry-complete-nowhere:%s' % nm)
+    elif s['cmd'].startswith('restore'):
         targets = range(s['n']) if s['cmd'] == 'restore-multi' else [0]
         for i in targets:
             nm = 'e%d' % i
